@@ -133,8 +133,12 @@ func StatePredicates(prefix string) {
 				u = false
 			}
 		}
-		verifrt.Region(prefix+"reach:w-U-", u && !S.Txs[1].Exists)
-		verifrt.Region(prefix+"reach:w-UF", u && S.Txs[1].State == txFAILED && !txTerminal(1))
+		second := NX - 1 // (a variable index: the block is compiled for NX == 1 as well)
+		if NX > 2 {
+			second = 1
+		}
+		verifrt.Region(prefix+"reach:w-U-", u && !S.Txs[second].Exists)
+		verifrt.Region(prefix+"reach:w-UF", u && S.Txs[second].State == txFAILED && !txTerminal(second))
 		const letters = "-CAFV"
 		for a := 1; a < 5; a++ {
 			for b := 0; b < 5; b++ {
